@@ -385,6 +385,6 @@ theorem maximalPass_is_translated_loop (pos : Pos) (rs : List PRule) :
         ([], { global := match rs.find? (fun r => r.idx = 0) with | some r => r.label | none => [] })).1.reverse := by
   rw [maximalPass_eq]
   simp only [genMaximalStep_eq pos (enforceFor pos rs) (fun h => enforceFor_S_O pos rs h)]
-  rfl
+  try rfl
 
 end Props.PartFuncs
